@@ -7,6 +7,7 @@
   Every theorem is about the functions the driver runs against the Go code.
 -/
 import VProofs.Ident
+import VProofs.IdentIP
 import VProofs.B64
 import VProofs.Limits
 import VModel.Vertable
@@ -296,6 +297,14 @@ theorem roomID_accept_iff_grammar_partial (s : BS) :
         simp only [this, if_true]
         repeat' split
         all_goals first | rfl | (exfalso; simp_all)
+
+/-- the IPv4 half of `ParseIPAgrees` IS proved: the dotted-quad parser (also used for the embedded tail of
+    an IPv6 literal) accepts exactly four dec-octets ≤ 255 without leading zeros, separated by single dots -/
+theorem parseIPv4_accept_iff_dottedQuad (s : BS) : (parseIPv4 s).isSome = Spec.isIPv4 s :=
+  parseIPv4_isSome_eq s
+
+example : parseIPv4 "255.0.10.1".toUTF8.toList = some [255, 0, 10, 1] ∧ parseIPv4 "1.2.3.04".toUTF8.toList = none
+    ∧ parseIPv4 "1.2.3".toUTF8.toList = none ∧ parseIPv4 "256.1.1.1".toUTF8.toList = none := by decide +kernel
 
 /-- net.ParseIP (as modelled) accepts exactly the dotted-quad and RFC 4291 text forms -/
 def ParseIPAgrees : Prop := ∀ a : BS, (parseIP a).isSome = Spec.isIPLiteral a
